@@ -44,6 +44,7 @@ def _cases():
         "R1-constant-cut": (lambda c, r: r1.check_no_constant_cut(c, r, config="default"), "add_assign|resize(2)", []),
         "R2-operand-narrowed": (lambda c, r: r2.check_no_operand_narrowing(c, r, config="default"), "Shl<u64>", []),
         "R9-carry-exit": (lambda c, r: r9.check_carry_exits(c, r, config="default"), "twice_negated|", ["twice_negated_ok"]),
+        "R9-exhaustion-test": (lambda c, r: r9.check_exhaustion_tests_live(c, r, config="default"), "take_back|", ["take_back_ok"]),
         "R8-mul-reaches-long-division": (lambda c, r: r8.check_mul_calls_no_long_division(c, r, config="default"), "div_rem_core", []),
     }
 
